@@ -120,6 +120,7 @@ check_shape (const char *phrase, size_t plen, const char *S, const char *H, int 
     }
   /* accepted as a setting */
   char *h2 = 0;
+  memset (d, 0x3B, sizeof *d);
   int k = VH_TRY (0);
   if (k == 0)
     {
